@@ -574,7 +574,15 @@ func oracleC09(g *Gen, n int) {
 	for _, bad := range c09BadPieces {
 		c09RecordOracle(g, 10, "x"+bad+"y\n", "")
 	}
-	for i := 0; i < n; {
+	// (0b) histories on ONE store read through an aliasing HashReader (util_c09alias.go), exhaustive on a small
+	// synthetic log: the sizes 2^j+1 (two adjacent store positions) up to 33 (thorough: 129) are all inside
+	hist, histFailed := 0, 0
+	if thorough {
+		hist = c09SmallScopeHistories(g, 1+g.Intn(900), 130)
+	} else {
+		hist = c09SmallScopeHistories(g, 1+g.Intn(900), 34)
+	}
+	for i := hist; i < n; { // one case per history
 		// (1) append records one at a time; layout, stored hashes, count, tree hashes
 		k := g.Intn(maxLen + 1)
 		recs := c09Records(g.Rand, k)
@@ -639,7 +647,21 @@ func oracleC09(g *Gen, n int) {
 				g.Fail("TreeHash(m) is not the RFC 6962 Merkle tree hash of the first m records", fmt.Sprintf("n=%d m=%d err=%v", k, m, err), fmt.Sprintf("tlog.treehash %d %s", m, tok))
 			}
 		}
-		// (2) coordinates far beyond any store: the two maps are mutually inverse
+		// (1b) the same log as a HISTORY: appends interleaved with TreeHash / ProveRecord / ProveTree / plain reads on
+		// one store through a zero-copy and through a memoising reader; after every step the store still equals st
+		// (verified position by position above) and every TreeHash(m) is still the RFC 6962 hash
+		hl := c09NewHist(tok, recs, st)
+		for _, mode := range []byte{'z', 'm'} {
+			steps := c09GenHistory(g.Rand, k) // drawn even when not run, so that the rest of the stream does not shift
+			if histFailed >= 3 {              // enough failing histories reported (each one is shrunk, which costs re-runs)
+				continue
+			}
+			g.Case("history")
+			i++
+			if !c09CheckHistory(g, hl, mode, steps) {
+				histFailed++
+			}
+		}
 		for j := 0; j < 40; j++ {
 			l, off := c09Coord(g.Rand)
 			p := tlog.StoredHashIndex(l, off)
